@@ -80,10 +80,10 @@ def build(read):
             "after": "proof { assert(src.subrange(0, src.len() as int) =~= src); assert(vals@ =~= pre + src); }"},
     }
     f = extract.annotate_fn(hdr + body, spec=SPEC, attrs="#[verifier::exec_allows_no_decreases_clause]\n#[verifier::loop_isolation(false)]\n#[verifier::allow_complex_invariants]", loops=ann)
-    f = extract.rewrite_once(f, "let item = match __ito.next() { Some(__x) => __x, None => break };\n",
-                             "let item = match __ito.next() { Some(__x) => __x, None => break };\n proof { i = i + 1; }\n", "outer ghost index")
-    f = extract.rewrite_once(f, "let item = match __iti.next() { Some(__x) => __x, None => break };\n",
-                             "let item = match __iti.next() { Some(__x) => __x, None => break };\n proof { j = j + 1; }\n", "inner ghost index")
+    f = extract.rewrite_regex_once(f, r"(let \w+ = match __ito\.next\(\) \{ Some\(__x\) => __x, None => break \};\n)",
+                                   r"\1 proof { i = i + 1; }\n", "outer ghost index")
+    f = extract.rewrite_regex_once(f, r"(let \w+ = match __iti\.next\(\) \{ Some\(__x\) => __x, None => break \};\n)",
+                                   r"\1 proof { j = j + 1; }\n", "inner ghost index")
     b.text = assemble([
         "// GENERATED on every run by /verif/verus/items.py from /repo's working tree - do not edit",
         parts.HEADER, parts.OPAQUE_CONTEXT, parts.OPAQUE_SCOPES,
